@@ -36,10 +36,13 @@ pub struct Action {
     pub pieces: Vec<usize>,
     /// use Transfer-Encoding: chunked with the piece sizes as chunk sizes
     pub chunked: bool,
+    /// sleep this many microseconds after each piece so that the client observes separate reads
+    #[serde(default)]
+    pub pace_us: u32,
 }
 impl Default for Action {
     fn default() -> Self {
-        Action { status: 206, body: Body::Range, cut_after: None, drop: false, pieces: vec![], chunked: false }
+        Action { status: 206, body: Body::Range, cut_after: None, drop: false, pieces: vec![], chunked: false, pace_us: 0 }
     }
 }
 
@@ -215,7 +218,11 @@ fn handle(mut s: TcpStream, data: &Arc<Vec<u8>>, script: &Script, index: usize, 
         sent += n;
         if !action.pieces.is_empty() {
             // let the client observe separate reads
-            std::thread::yield_now();
+            if action.pace_us > 0 {
+                std::thread::sleep(std::time::Duration::from_micros(action.pace_us as u64));
+            } else {
+                std::thread::yield_now();
+            }
         }
     }
     if action.chunked && action.cut_after.map(|c| c >= body.len()).unwrap_or(true) && ok {
